@@ -455,7 +455,10 @@ func levelLabels(c *LevelCase, info *pqref.LevelInfo) (l []string, nt bool) {
 func TestC07(t *testing.T) { rapid.Check(t, propC07) }
 
 // FuzzC07: the same property driven by Go's coverage-guided fuzzer (thorough tier).
-func FuzzC07(f *testing.F) { f.Fuzz(rapid.MakeFuzz(propC07)) }
+func FuzzC07(f *testing.F) {
+	fuzzSeeds(f)
+	f.Fuzz(rapid.MakeFuzz(propC07))
+}
 
 func propC07(t *rapid.T) {
 	maxVals := envInt("VERIF_C07_MAXVALS", 42000)
